@@ -298,7 +298,7 @@ func init() {
 			c.Text = asset()
 			c.Literal = gen.Asset(c.Text)
 		case "string":
-			c.Text = gen.Pick(t, "str", []string{"", "hello", "a b", "é", "日本", "🙂", "with \"quotes\"", "line\nbreak", "tab\t", " lead", "trail ", "USD 10", "1/2", "\\", "a\\\"b", "{}", "null", "del:\x7f", "bell\a", "\x01", "\v", "a\u2028b", "\U000e0001",
+			c.Text = gen.Pick(t, "str", []string{"", "hello", "a b", "é", "日本", "🙂", "with \"quotes\"", "line\nbreak", "tab\t", " lead", "trail ", "USD 10", "1/2", "\\", "a\\\"b", "{}", "null", "del:\x7f", "bell\a", "\x01", "\v", "a\u2028b", "\U000e0001", "replacement \ufffd char",
 				// texts that look like variable references, format verbs, templates
 				"$v", "cost $v!", "$u and $w", "$before$after", "${v}", "{{v}}", "%s %d %v", "\\$v"})
 			if !strings.ContainsAny(c.Text, "\"\n\r\\") {
